@@ -159,36 +159,18 @@ def r1_siblings(ctx):
             r.inst("plurals: fallback", "`_ => other`, same rule type and count in both")
         else:
             r.viol("R1:plurals#fallback", "the two generators do not share the `_ => other` fallback / rule type / count: view %s vs string %s" % (ska, skb), file=MP)
-    # (d) formatter families
-    fns = {n: ast.fn(MF, n, impl_self="Formatter") for n in ("var_to_view", "var_fmt", "var_to_display")}
-    if any(v is None for v in fns.values()):
-        r.missing("Formatter::var_to_view / var_fmt / var_to_display")
-    else:
-        tabs = {}
-        for n, fn in fns.items():
-            m = find_first(fn.body, "Match")
-            tab = {}
-            for a2 in m["arms"]:
-                variant = show_pat(a2["pat"]).split("(")[0].split("::")[-1]
-                opts = re.findall(r"\b(\w+)\b", show_pat(a2["pat"]).split("(", 1)[1]) if "(" in show_pat(a2["pat"]) else []
-                qs = [tok_text(q["tokens"]) for q in xquotes(a2["body"])]
-                fam = None
-                args = []
-                if qs:
-                    mm = re.search(r"format_(\w+?)_to_(view|formatter|display)", qs[0])
-                    fam = mm.group(1) if mm else None
-                    args = [x for x in re.findall(r"#(\w+)", qs[0]) if x in opts]
-                tab[variant] = (fam, args, opts)
-            tabs[n] = tab
-        base = tabs["var_to_view"]
-        want_fam = {"Currency": "currency", "Number": "number", "Date": "date", "Time": "time", "DateTime": "datetime", "List": "list"}
-        for variant, fam in want_fam.items():
-            row = {n: tabs[n].get(variant) for n in tabs}
-            ok = all(row[n] is not None and row[n][0] == fam and row[n][1] == row[n][2] for n in row)
-            if ok and len({tuple(row[n][1]) for n in row}) == 1:
-                r.inst("Formatter::%s" % variant, "format_%s_to_{view,formatter,display}(%s) in all three" % (fam, ", ".join(base[variant][1])))
-            else:
-                r.viol("R1:Formatter::%s" % variant, "the three back-ends disagree: %s" % row, file=MF)
+    # (d) formatter families: the three generators evaluated on every family (rules/c18.py _r3_codegen, shared with C18.R3): each emits
+    # format_<family>_<its flavour>(locale, value, the variant's options in declaration order) - same family, same options in all three
+    from rules import c18 as _c18
+    from report import Rule as _Rule2
+    tmp2 = _Rule2("C02.R1", "formatters", "formatters", floor=0)
+    _c18._r3_codegen(tmp2, ctx)
+    for i_ in tmp2.instances:
+        if i_["site"].startswith("Formatter::var_"):
+            r.instances.append(dict(i_))
+    for v_ in tmp2.violations:
+        if re.search(r"var_to_view|var_fmt|var_to_display", v_.key):
+            r.viol("R1:" + v_.key.split(":", 1)[1], "the three back-ends of a formatted variable must call the same family with the same options: " + v_.msg, file=v_.file, line=v_.line)
     return r
 
 
